@@ -128,17 +128,24 @@ class Sandbox:
         os.makedirs(base, exist_ok=True)
         self.root = os.path.join(base, "%s-%d-%d-%d" % (tag, os.getpid(), _counter[0], time.monotonic_ns() % 1000000))
         self.aux = self.root + ".aux"
+        # a directory on the *other* filesystem (tmpfs for ext4 sandboxes and vice versa), for cross-device cases
+        ofs = "tmpfs" if fs == "ext4" else "ext4"
+        os.makedirs(os.path.join(SCRATCH[ofs], "run"), exist_ok=True)
+        self.other = os.path.join(SCRATCH[ofs], "run", os.path.basename(self.root) + ".other")
 
     def __enter__(self):
         force_rmtree(self.root)
         force_rmtree(self.aux)
+        force_rmtree(self.other)
         os.makedirs(self.root)
         os.makedirs(self.aux)
+        os.makedirs(self.other)
         return self
 
     def __exit__(self, *a):
         force_rmtree(self.root)
         force_rmtree(self.aux)
+        force_rmtree(self.other)
 
     def path(self, rel=""):
         return os.path.join(b(self.root), b(rel)) if rel else b(self.root)
